@@ -310,7 +310,11 @@ def render_impl(t, c, ops=False):
 # ----------------------------------------------------------------------------------------------
 # typed generators
 # ----------------------------------------------------------------------------------------------
-HOSTILE = ["it's", 'say "hi"', "back\\slash", "--c", "/*x*/", "#h", "a;b", "l1\nl2", "nul\x00z", "é✓", "''", "", " ", "%x_"]
+HOSTILE = ["it's", 'say "hi"', "back\\slash", "--c", "/*x*/", "#h", "a;b", "l1\nl2", "nul\x00z", "é✓", "''", "", " ", "%x_",
+           # format-template and post-processing bait (round 4): braces, percent directives, a trailing backslash, statement
+           # keywords and hint-like text inside a value
+           "{", "}", "{}", "{{x}}", "{0}", "{name}", "%s", "%(p)s", "100%", "dir\\", "\\", "SELECT 1", "INSERT INTO x",
+           "/*+label(h)*/"]
 NAMES = ["a", "b", "c", "col", "x1"]
 ALIASES = ["al", "n", "my alias"]
 TABLES = [["t", [], None], ["t", [], "ta"], ["u", ["s"], None], ["v", ["d", "s"], "va"], ["t", [], ""]]
